@@ -896,7 +896,7 @@ def run(ctx):
         ctx.log('break (proof %s, harness %s, leaf %d): searching with a larger budget' % (broken, bool(tools.tie_error), len(lm)))
         mism = explore(ctx, tools, 100000, [3], [(4, 80000), (5, 30000), (6, 30000)], 3000, 40, n_groups=20000)
     else:
-        mism = explore(ctx, tools, 200000, [3], [(4, 150000), (5, 60000), (6, 60000)], 30000, 64, n_groups=30000)
+        mism = explore(ctx, tools, 130000, [3], [(4, 100000), (5, 40000), (6, 40000)], 20000, 64, n_groups=20000)
     found = bool(ctx.violations) or bool(ctx.known_hits)
     if lm:
         l, x, y = lm[0]
